@@ -52,7 +52,8 @@ theorem punctuators_never_div : operatorTokensNeverDiv g regexPunctuators = true
 theorem rparen_states_exclusive : rparenExclusive g = true := by decide +kernel
 
 /-- D: division and regular expression are exclusive per state, outside the function-end states -/
-theorem slash_classes_exclusive : slashExclusive g = true := by decide +kernel
+theorem slash_classes_exclusive : slashExclusive g = true := by
+  rw [← slashExclusiveF_eq]; decide +kernel
 
 /-- whenever a state has an action on `/` (or `/=`) AND on a regular-expression literal, all these actions are the
     reductions of `function_declaration` / `function_expr` at the closing brace of a named function -/
@@ -64,7 +65,7 @@ theorem slash_reading_is_dictated {s : Nat}
   slashExclusive_state slash_classes_exclusive hd hr
 
 /-- non-vacuity: exactly two states accept both classes (after `function f(){}` and after `function f(a){}`) -/
-example : (slashBothFrom g 0 g.action).length = 2 := by decide +kernel
+example : (slashBoth g).length = 2 := by decide +kernel
 
 /-- non-vacuity -/
 example : simple.length ≥ 8 ∧ regexPunctuators.length ≥ 30 := by decide +kernel
